@@ -102,6 +102,9 @@ func (s *Server) Close() { s.srv.Close() }
 // (the request must carry "Connection: close"). watchdog bounds the whole
 // exchange; hitting it is reported as hung=true, never as a property violation by
 // itself (callers re-run before believing it).
+// HalfCloseAfterRequest makes RawExchange half-close the connection once the request is written.
+var HalfCloseAfterRequest bool
+
 func RawExchange(addr string, raw []byte, watchdog time.Duration) (resp []byte, hung bool, err error) {
 	c, err := net.DialTimeout("tcp", addr, watchdog)
 	if err != nil {
@@ -111,6 +114,12 @@ func RawExchange(addr string, raw []byte, watchdog time.Duration) (resp []byte, 
 	c.SetDeadline(time.Now().Add(watchdog))
 	if _, err := c.Write(raw); err != nil {
 		return nil, false, err
+	}
+	if HalfCloseAfterRequest {
+		// the client has nothing more to send: it shuts down its sending half and keeps reading
+		if tc, ok := c.(*net.TCPConn); ok {
+			tc.CloseWrite()
+		}
 	}
 	var buf bytes.Buffer
 	_, err = io.Copy(&buf, c)
